@@ -264,6 +264,7 @@ MUTANTS += [
     ("revert_gibbs_limits", "C09", "REVERT", "no longer cancel each other", ""),
     ("revert_ensemble_int_start", "C03", "REVERT", "converts integer starting positions", ""),
     ("revert_run_for_coarse_clock", "C15", "REVERT", "clock has not moved between two readings", ""),
+    ("revert_sigma_float", "C09", "REVERT", "proposal widths are held as python floats", ""),
 ]
 
 # the last one is behaviour-preserving (serial request/response): the check must NOT alarm
